@@ -521,6 +521,7 @@ fn run_str_seq(r: &mut Rng, ctors: &[u64], ops: &[(u64, usize, usize)]) -> (Vec<
 
 pub fn run(a: &Args) -> Option<Report> {
     match a.leg.as_str() {
+        "zst" | "miri-zst" => return Some(run_zst(a)),
         "sweep" | "random" | "asan" | "miri" | "miri-sweep" => {}
         _ => return None,
     }
@@ -594,4 +595,74 @@ pub fn run(a: &Args) -> Option<Report> {
     }
     let _ = fnv;
     Some(rep)
+}
+
+/// Zero-sized element types: `Vec<Zst>` reports a capacity of usize::MAX, which the representation reserves for the
+/// shared kind. Every safe sequence must either be refused cleanly (a panic) or behave; a wild access kills the
+/// process (the driver reports the signal) or is reported by Miri/ASan.
+#[derive(Clone, Debug, PartialEq, Eq, PartialOrd, Ord, Hash)]
+struct Zst;
+
+fn run_zst(a: &Args) -> Report {
+    let mut rep = Report::new("C14", &a.leg, a.seed);
+    rt::quiet_panics();
+    let mut r = Rng::new(a.shard_seed());
+    for n in [0usize, 1, 3, 64] {
+        for ops in 0..8u64 {
+            let res = rt::catch(|| {
+                let v: Vec<Zst> = (0..n).map(|_| Zst).collect();
+                let c: Cow<'_, [Zst]> = Cow::from_owned(v);
+                let len = c.len();
+                let d = if ops & 1 != 0 { Some(c.clone()) } else { None };
+                if ops & 2 != 0 {
+                    let back = c.into_owned();
+                    assert_eq!(back.len(), len);
+                } else {
+                    drop(c);
+                }
+                if let Some(d) = d {
+                    if ops & 4 != 0 {
+                        let h = std::thread::spawn(move || d.len());
+                        assert_eq!(h.join().unwrap(), len);
+                    } else {
+                        assert_eq!(d.len(), len);
+                    }
+                }
+                len
+            });
+            rep.case(mix(n as u64, ops), true);
+            match res {
+                Ok(len) => {
+                    if len != n {
+                        rep.violation("C14:content-differs", jo! {"what" => "zero-sized elements: length read back differs", "n" => n, "len" => len});
+                    }
+                }
+                Err(m) => {
+                    // a clean refusal is acceptable only as the documented capacity panic
+                    if !m.contains("Invalid capacity") {
+                        rep.violation("C14:panic", jo! {"what" => "zero-sized elements: an operation panicked with something other than the documented refusal", "panic" => m, "n" => n, "ops" => ops});
+                    }
+                }
+            }
+        }
+    }
+    // borrowed and shared slices of zero-sized elements are ordinary values
+    let backing = vec![Zst; 5];
+    let b = Cow::from_borrowed(&backing[..]);
+    let b2 = b.clone();
+    let arc: Arc<[Zst]> = Arc::from(vec![Zst; 3]);
+    let sres = rt::catch(|| {
+        let s1: Cow<'_, [Zst]> = Cow::from_shared(arc.clone());
+        let s2 = s1.clone();
+        let l = s1.len() + s2.len();
+        drop(s1);
+        let v = s2.into_owned();
+        l + v.len()
+    });
+    if b.len() != 5 || b2.len() != 5 || !matches!(sres, Ok(9)) || Arc::strong_count(&arc) != 1 {
+        rep.violation("C14:content-differs", jo! {"what" => "borrowed/shared slices of zero-sized elements misbehave", "shared_result" => format!("{:?}", sres), "strong_count" => Arc::strong_count(&arc)});
+    }
+    rep.sample(jo! {"zero_sized_elements" => true, "owned_lengths" => "0,1,3,64", "op_masks" => 8});
+    let _ = r.next_u64();
+    rep
 }
